@@ -36,6 +36,9 @@ func runC16(r *an.Run) {
 		c16Messages(r, m)
 		crossFileState(r, m, "R7-one-file-failure-does-not-affect-others")
 	}
+	// a bad argument can only be reported if every argument is examined
+	c15OnceInOrder(r)
+	relabel(r, "R3-each-file-once-in-fixed-order", "R8-every-argument-examined")
 }
 
 var destructiveOpens = setOf("os.WriteFile", "os.Create", "os.OpenFile", "os.Truncate", "io/ioutil.WriteFile", "(*os.File).Truncate")
